@@ -92,8 +92,9 @@ fn roundtrip(c: &RtCase, ctx: &mut CaseCtx) -> Result<(), Fail> {
         ctx.label(format!("class:{cl}"));
     }
     ctx.label(size_class(store));
-    ctx.label(format!("data classes:{}", b.probes.classes.len()));
-    if b.probes.classes.len() >= 3 {
+    let classes = model::counted_classes(&b.probes);
+    ctx.label(format!("data classes:{classes}"));
+    if classes >= 3 {
         ctx.set_nontrivial();
     }
     let o = Orig { probes: &b.probes, r: observe_router(store.router(), &b.probes, false), e: observe_engines(store, &b.probes, false) };
@@ -224,7 +225,7 @@ fn embdims(c: &DimCase, ctx: &mut CaseCtx) -> Result<(), Fail> {
     let mut probes = Probes::default();
     model::apply_raw(&c.ops, &router, false, &mut probes);
     ctx.label(format!("dim:{d}"));
-    if probes.classes.len() >= 3 {
+    if model::counted_classes(&probes) >= 3 {
         ctx.set_nontrivial();
     }
     let o = observe_router(&router, &probes, false);
@@ -268,7 +269,7 @@ fn main() {
     main_for(PropDef {
         id: "C07",
         level: "fault_enumeration",
-        rule: "roundtrip: a store built through RelationalEngine (tables of 1-6 columns over all 6 column types, NULLs, deletes, updates, indexes), GraphEngine (nodes/edges with all property kinds), VectorEngine and raw puts (12 metadata/graph/table/blob-class keys, 8 emb: keys with slab-dimension and off-dimension vectors, cache keys, deletes, every TensorValue/ScalarValue kind incl. int extremes, NaN/inf/-0.0, empty strings, bytes, sparse vectors, pointers) plus the internal graph-tensor and blob-log slabs; sizes 0, 1, a handful, ~50 and generated bulk (quick <= 600, thorough <= 40 000 entries); each case goes through all five snapshot forms. embdims: SlabRouter with embedding dimension 4/64/255/256/384/768 and up to 10 raw operations. kill: one child save with RLIMIT_FSIZE=L per case (L absolute in 0..48 / 48..200 / 200..800 / 800..4000, or |N|-12..|N|+3) over 4 writers and 4 path shapes; kill_all: every L in 0..=|N|+2 (snapshots up to 350 bytes quick / 3 000 thorough, decided for the zstd writers on the process-independent uncompressed size / 4; stratified above). non-trivial = the store holds >= 3 data classes (relational, graph, embeddings, metadata, blobs, cache, graph-tensor, blob-log), or a child save was killed strictly inside the payload (L above the 20-byte header); distinct = distinct generated case",
+        rule: "roundtrip: a store built through RelationalEngine (tables of 1-6 columns over all 6 column types, NULLs, deletes, updates, indexes), GraphEngine (nodes/edges with all property kinds), VectorEngine and raw puts (12 metadata/graph/table/blob-class keys, 8 emb: keys with slab-dimension and off-dimension vectors, cache keys, deletes, every TensorValue/ScalarValue kind incl. int extremes, NaN/inf/-0.0, empty strings, bytes, sparse vectors, pointers) plus the internal graph-tensor and blob-log slabs; sizes 0, 1, a handful, ~50 and generated bulk (quick <= 600, thorough <= 40 000 entries); each case goes through all five snapshot forms. embdims: SlabRouter with embedding dimension 4/64/255/256/384/768 and up to 10 raw operations. kill: one child save with RLIMIT_FSIZE=L per case (L absolute in 0..48 / 48..200 / 200..800 / 800..4000, or |N|-12..|N|+3) over 4 writers and 4 path shapes; kill_all: every L in 0..=|N|+2 (snapshots up to 350 bytes quick / 3 000 thorough, decided for the zstd writers on the process-independent uncompressed size / 4; stratified above). non-trivial = the store holds >= 3 of the data classes relational rows/schemas, graph nodes/edges, embeddings, metadata keys, blob-class keys, cache entries (the internal graph-tensor and blob-log slabs are labelled, not counted), or a child save was killed strictly inside the payload (L above the 20-byte header); distinct = distinct generated case",
         assumptions: vec![
             "oracle = the store's own readers applied to the original and to the reloaded store: scan+get of every key, embedding slab, metadata copy of _embedding, entity-index keys, relational slab scan_all + schema, graph tensor adjacency and edge data, blob log, RelationalEngine select/get_schema/row_count, GraphEngine get_node/get_edge/neighbors, VectorEngine get_embedding; values compared through canonical bitcode bytes (floats bitwise)",
             "embedding-slab vectors: dimension < 256 and fewer than half components <= 1e-6: bit-identical; at least half components <= 1e-6 (sparse form): identical except that components with |v| <= 1e-6 may come back as +0.0; dimension >= 256 otherwise (tensor-train): same length, finite if the input was finite, and relative L2 error <= 1e-3 for vectors generated with TT-rank <= 3 (constant, linear ramp, sum of <= 3 separable terms over the documented shapes 4x8x8 / 4x8x12 / 8x8x12) whose largest component is in [1e-2, 1e6]",
@@ -278,10 +279,10 @@ fn main() {
             "entity ids are not compared (not observable through the store API); the compressed size of a snapshot varies by a few bytes between processes (hash-map field order), so |N| is known to the parent only approximately",
         ],
         parts: vec![
-            PropPart::new("roundtrip", 1_200, 24_000, rt_strategy, roundtrip).shrink_iters(400).boxed(),
-            PropPart::new("embdims", 1_600, 30_000, dim_strategy, embdims).shrink_iters(600).boxed(),
-            PropPart::new("kill", 1_000, 22_000, atomic::kill_strategy, atomic::kill_check).shrink_iters(150).boxed(),
-            PropPart::new("kill_all", 8, 160, atomic::kill_all_strategy, atomic::kill_all_check).shrink_iters(30).boxed(),
+            PropPart::new("roundtrip", 2_400, 40_000, rt_strategy, roundtrip).shrink_iters(400).boxed(),
+            PropPart::new("embdims", 3_200, 80_000, dim_strategy, embdims).shrink_iters(600).boxed(),
+            PropPart::new("kill", 1_800, 40_000, atomic::kill_strategy, atomic::kill_check).shrink_iters(150).boxed(),
+            PropPart::new("kill_all", 12, 160, atomic::kill_all_strategy, atomic::kill_all_check).shrink_iters(30).boxed(),
         ],
         children: vec![("save", Box::new(atomic::child_save))],
     });
